@@ -411,7 +411,10 @@ class HttpCommunicationLayer(CommunicationLayer):
             )
 
         dest_address = "http://{}:{}/pydcop".format(server, port)
-        msg_repr = simple_repr(msg.msg)
+        # Encode with the json module: requests' own encoder (json=) rejects
+        # infinite costs, which are legitimate in messages (e.g. an initial
+        # upper bound) and are decoded without problem on the other side.
+        msg_repr = json.dumps(simple_repr(msg.msg))
         try:
             r = requests.post(
                 dest_address,
@@ -421,8 +424,9 @@ class HttpCommunicationLayer(CommunicationLayer):
                     "sender-comp": msg.src_comp,
                     "dest-comp": msg.dest_comp,
                     "type": str(msg.msg_type),
+                    "Content-Type": "application/json",
                 },
-                json=msg_repr,
+                data=msg_repr,
                 timeout=0.5,
             )
         except ConnectionError:
